@@ -916,6 +916,24 @@ class RDFXMLWriter:
         else:
             tag = "rdf:Description"
             extra_type = n.get("type")
+        # an xml:base of its own for this element and everything inside it, written relative to the base in scope where that can be done
+        outer_base = self.base
+        base_attr = ""
+        if self.base is not None and getattr(self, "hier", None) and not root_attrs and c.pick(6) == 0:
+            nb = c.choice(self.hier)
+            cands = [r for _, r in relative_candidates(self.base, nb) if r] + [nb]
+            ref = c.choice(cands)
+            c.feat("nested-xml:base" + (":relative" if ref != nb else ""))
+            base_attr = ' xml:base="%s"' % self.esc(ref, attr=True)
+            self.base = nb
+        try:
+            return self._node(n, scope_lang, indent, root_attrs + base_attr, tag, extra_type, decls)
+        finally:
+            self.base = outer_base
+
+    def _node(self, n, scope_lang, indent, root_attrs, tag, extra_type, decls):
+        c = self.c
+        s = n["s"]
         attrs = self.subject_attrs(s)
         lang = scope_lang
         if n.get("lang"):
@@ -957,6 +975,7 @@ class RDFXMLWriter:
         # (a base that makes rdf:ID usable: the part before the fragment of an IRI whose fragment is an NCName)
         hier += [i.split("#")[0] for i in iris if re.match(r"^https?://[^#]+#", i) and _NCNAME.match(i.split("#", 1)[1])]
         root_attrs = "".join(' xmlns:%s="%s"' % (p, self.esc(u, attr=True)) for u, p in self.ns.items())
+        self.hier = [h for h in hier if "#" not in h]
         if hier and c.flag():
             self.base = c.choice(hier)
             c.feat("xml:base")
